@@ -281,13 +281,13 @@ RESET_TIMER:
 	if trd, ok := s.rd.Load().(time.Time); ok && !trd.IsZero() {
 		if timeout == nil {
 			timeout = time.NewTimer(time.Until(trd))
-			c = timeout.C
 			defer timeout.Stop()
 		} else {
 			// Pre-Go 1.23: Reset does not drain the channel;
 			// callers must drain at the goto-site before arriving here.
 			timeout.Reset(time.Until(trd))
 		}
+		c = timeout.C // (re-)enable the timeout select case
 	} else if timeout != nil {
 		timeout.Stop()
 		c = nil // disable timeout select case
@@ -347,8 +347,9 @@ RESET_TIMER:
 					default:
 					}
 				}
-				goto RESET_TIMER
 			}
+			// the deadline may have been set, changed or cleared while blocked
+			goto RESET_TIMER
 		case <-c:
 			return 0, errors.WithStack(errTimeout)
 		case <-s.chSocketReadError:
@@ -371,13 +372,13 @@ RESET_TIMER:
 	if twd, ok := s.wd.Load().(time.Time); ok && !twd.IsZero() {
 		if timeout == nil {
 			timeout = time.NewTimer(time.Until(twd))
-			c = timeout.C
 			defer timeout.Stop()
 		} else {
 			// Pre-Go 1.23: Reset does not drain the channel;
 			// callers must drain at the goto-site before arriving here.
 			timeout.Reset(time.Until(twd))
 		}
+		c = timeout.C // (re-)enable the timeout select case
 	} else if timeout != nil {
 		timeout.Stop()
 		c = nil // disable timeout select case
@@ -438,8 +439,9 @@ RESET_TIMER:
 					default:
 					}
 				}
-				goto RESET_TIMER
 			}
+			// the deadline may have been set, changed or cleared while blocked
+			goto RESET_TIMER
 		case <-c:
 			return 0, errors.WithStack(errTimeout)
 		case <-s.chSocketWriteError:
